@@ -17,8 +17,6 @@ M = [
   "                if versioned_value.is_deleted() {\n                    max_deleted_version = versioned_value.version.max(max_deleted_version);\n                }"),
  ("M05-ttl-sent-as-set", ["C02","C03"], "chitchat/src/types.rs",
   "            DeletionStatus::DeleteAfterTtl(_) => DeletionStatusMutation::DeleteAfterTtl,", "            DeletionStatus::DeleteAfterTtl(_) => DeletionStatusMutation::Set,"),
- ("M06-self-heartbeat-from-digest", ["C05"], "chitchat/src/lib.rs",
-  "        if chitchat_id == self.self_chitchat_id() {\n            return;\n        }\n\n        let should_init_if_absent", "        let should_init_if_absent"),
  ("M07-header-budget-1", ["C07"], "chitchat/src/lib.rs",
   "pub(crate) const MESSAGE_HEADER_LEN: usize = 4;", "pub(crate) const MESSAGE_HEADER_LEN: usize = 1;"),
  ("M08-digest-keeps-scheduled", ["C12"], "chitchat/src/state.rs",
@@ -59,8 +57,8 @@ M = [
   "                if now < deleted_start_instant + grace_period {", "                if now <= deleted_start_instant + grace_period {"),
  ("M24-syn-len-omits-cluster-id", ["C08"], "chitchat/src/message.rs",
   "                    1 + cluster_id.serialized_len() + digest.serialized_len()", "                    1 + 2 + cluster_id.chars().count() + digest.serialized_len()"),
- ("M25-delta-status-dropped-on-apply", ["C03","C02"], "chitchat/src/state.rs",
-  "                status: key_value_mutation.status.into_status(now),", "                status: if key_value_mutation.value.is_empty() { key_value_mutation.status.into_status(now) } else { DeletionStatus::Set },"),
+ ("M25-ttl-applied-as-set", ["C03","C02"], "chitchat/src/state.rs",
+  "                status: key_value_mutation.status.into_status(now),", "                status: if key_value_mutation.status == DeletionStatusMutation::DeleteAfterTtl { DeletionStatus::Set } else { key_value_mutation.status.into_status(now) },"),
  ("M26-catchup-keeps-stale-keys", ["C18"], "chitchat/src/lib.rs",
   "        for key in previous_keys {\n            node_state.remove_key_value_internal(&key);\n        }", "        for key in previous_keys.into_iter().skip(1) {\n            node_state.remove_key_value_internal(&key);\n        }"),
  ("M27-setmax-may-lower", ["C09"], "chitchat/src/delta.rs",
